@@ -54,33 +54,82 @@ let rec pre_hash t h0 = match t with
     pre_hash r (pre_hash l (hstep (hstep (hstep h0 (int_of_z k)) (int_of_nat s)) (int_of_nat h)))
 let dump_str hash t = if hash then "#" ^ string_of_int (pre_hash t 7) else String.concat "," (pre_tokens t [])
 
+(* ---- the cell machine (AvlHeapModel): raw fields of every live Item, by slot ------------------------ *)
+let pnum (p : nat option) = match p with None -> -1 | Some a -> int_of_nat a
+let lnum (p : lptr) = match p with LEnd -> -2 | LCell a -> int_of_nat a
+let pstr n = if n = -1 then "-" else if n = -2 then "E" else string_of_int n
+let rec slots_of t acc = match t with
+  | Leaf -> acc
+  | Node (l, _, _, s, _, r) -> slots_of l (int_of_nat s :: slots_of r acc)
+let full_limit = 24
+let cells_str (cs : cstate) (t : tree) =
+  let (tt, root) = cs.ts in
+  let live = List.sort compare (slots_of t []) in
+  let hd = [pnum root; lnum cs.ls.l_begin; pnum cs.ls.l_eprev; int_of_nat cs.ls.l_size] in
+  let cell s =
+    let a = nat_of_int s in
+    let c = tt a and l = cs.ls.lh a in
+    [s; int_of_z c.ckey; int_of_z c.cval; pnum c.cpar; pnum c.cleft; pnum c.cright; int_of_nat c.cht; int_of_z c.cslope;
+     pnum l.cprev; lnum l.cnext] in
+  let cells = List.map cell live in
+  if List.length live <= full_limit then
+    Printf.sprintf "r=%s b=%s e=%s n=%d %s" (pstr (List.nth hd 0)) (pstr (List.nth hd 1)) (pstr (List.nth hd 2)) (List.nth hd 3)
+      (if cells = [] then "-" else
+         String.concat "," (List.map (fun c -> match c with
+           | [s; k; v; p; l; r; h; sl; pv; nx] ->
+             Printf.sprintf "%d:%d:%d:%s:%s:%s:%d:%d:%s:%s" s k v (pstr p) (pstr l) (pstr r) h sl (pstr pv) (pstr nx)
+           | _ -> "?") cells))
+  else
+    "c#" ^ string_of_int (List.fold_left (fun h c -> List.fold_left hstep h c) (List.fold_left hstep 7 hd) cells)
+
+(* the extracted heaps are chains of closures (one per field write); re-tabulate the live cells after
+   every operation so that a look-up stays cheap (same function on the live slots) *)
+let compact (cs : cstate) (t : tree) : cstate =
+  let (tt, root) = cs.ts in
+  let live = slots_of t [] in
+  let tb = Hashtbl.create 64 and lb = Hashtbl.create 64 in
+  List.iter (fun s -> let a = nat_of_int s in Hashtbl.replace tb s (tt a); Hashtbl.replace lb s (cs.ls.lh a)) live;
+  let (t0, _) = cs_empty.ts and l0 = cs_empty.ls.lh in
+  let tf a = (match Hashtbl.find_opt tb (int_of_nat a) with Some c -> c | None -> t0 a)
+  and lf a = (match Hashtbl.find_opt lb (int_of_nat a) with Some c -> c | None -> l0 a) in
+  { ts = (tf, root); ls = { cs.ls with lh = lf } }
+
 let () =
   let mode = Sys.argv.(1) and file = Sys.argv.(2) in
   let flav = ref FMap and hash = ref false in
   let on_case cfg =
     flav := (if List.mem "multimap" cfg then FMulti else FMap);
     hash := List.mem "hash" cfg;
-    (m_init, s_init) in
+    (m_init, s_init, Some h_init) in
   let is_find toks = (match toks with "find" :: _ -> true | _ -> false) in
   (* operations that read the other container: its state is printed too *)
   let is_two toks = (match toks with ["copy"] | ["copyc"] | ["copys"] | ["bulk"] -> true | _ -> false) in
   if mode = "model" then
     run_cases file on_case
-      (fun (st, sp) _ toks ->
+      (fun (st, sp, hs) _ toks ->
          let o = parse_op toks in
          let (st', (r, c)) = step !flav st o in
          let ct = m_sel st' and co = m_other st' in
-         emit (Printf.sprintf "%s%s%s | %d %d %s | %s%s" (res_str r)
+         (* the cell machine runs next to the node-level model; its cells are printed raw *)
+         let hs' = (match hs with
+             | None -> None
+             | Some h -> (match Model.hstep !flav h o with
+                 | None -> None
+                 | Some h' -> Some { h' with h_a = compact h'.h_a st'.m_a.tr; h_b = compact h'.h_b st'.m_b.tr })) in
+         let cells which t = (match hs' with
+             | None -> "!cell-fault"
+             | Some h -> cells_str (which h) t) in
+         emit (Printf.sprintf "%s%s%s | %d %d %s | %s ; %s%s" (res_str r)
                  (if is_find toks then Printf.sprintf " c=%d" (int_of_nat c) else "")
                  (if is_two toks then Printf.sprintf " o=%d %s" (int_of_nat co.sz) (iter_str !hash (inorder co.tr)) else "")
                  (int_of_nat ct.sz) (match ct.tr with Leaf -> 1 | _ -> 0)
-                 (iter_str !hash (inorder ct.tr)) (dump_str !hash ct.tr)
-                 (if is_two toks then " / " ^ dump_str !hash co.tr else ""));
-         (st', sp))
+                 (iter_str !hash (inorder ct.tr)) (dump_str !hash ct.tr) (cells h_sel ct.tr)
+                 (if is_two toks then " / " ^ dump_str !hash co.tr ^ " ; " ^ cells h_other co.tr else ""));
+         (st', sp, hs'))
       (fun _ -> ())
   else
     run_cases file on_case
-      (fun (st, sp) _ toks ->
+      (fun (st, sp, hs) _ toks ->
          let o = parse_op toks in
          let ch = (match toks with
              | ["hintc"; _; _; _; r] -> nat_of_int (int_of_string r)   (* relational spec: check the implementation's choice *)
@@ -91,5 +140,5 @@ let () =
          emit (Printf.sprintf "%s%s%s | %d %d %s" (res_str r) (if is_find toks then " ?" else "")
                  (if is_two toks then Printf.sprintf " o=%d %s" (List.length lo) (iter_str !hash lo) else "")
                  (List.length l) (if l = [] then 1 else 0) (iter_str !hash l));
-         (st', sp'))
+         (st', sp', hs))
       (fun _ -> ())
